@@ -16,7 +16,7 @@ def exc_key(ex):
         if '/nptdms/' in fn:
             where = os.path.basename(fn)[:-3] + '.' + fr.name
     if isinstance(ex, AssertionError) and type(ex).__name__ == 'ContractBroken':
-        return 'ContractBroken[%s]@%s' % (str(ex).split(' (')[0], where)
+        return 'ContractBroken[%s]@%s' % (str(ex).split(' (')[0].replace('NumpyDataReceiver', 'Receiver').replace('TimestampDataReceiver', 'Receiver'), where)
     return '%s@%s' % (type(ex).__name__, where)
 
 
